@@ -1,3 +1,4 @@
+import PV.Model.Substitute
 import PV.Driver.Proto
 import PV.Model.Utf8
 import PV.Spec.Utf8
@@ -349,6 +350,18 @@ def tools (op : String) (args : List String) : String :=
     | some input => match PV.Tools2.base64Number (recs input) with
       | some out => s!"ok {unl out}"
       | none => "ERR:notb64"
+    | none => "bad-op"
+  | "substitute", [h] =>        -- through the hash-table model (values stored in the entries)
+    match unhex h with
+    | some input => match PV.Substitute.substitute (recs input) with
+      | some out => s!"ok {unl out}"
+      | none => "ERR"
+    | none => "bad-op"
+  | "spec.substitute", [h] =>   -- table-free specification
+    match unhex h with
+    | some input => match PV.Substitute.spec (recs input) with
+      | some out => s!"ok {unl out}"
+      | none => "ERR"
     | none => "bad-op"
   | "vocab", [h] =>
     match unhex h with
